@@ -58,7 +58,8 @@ def recipes(draw, dims=(2, 3), single_group=False, coarse=False):
 @st.composite
 def sim_cases(draw, sims=SIMS, coarse=False):
     sim = draw(st.sampled_from(list(sims)))
-    case = dict(sim=sim, seed=draw(st.integers(0, 9999)), only=None, algo="elliptic", model={})
+    case = dict(sim=sim, seed=draw(st.integers(0, 9999)), only=None, algo="elliptic", model={},
+                umag=draw(st.sampled_from([1.0, 1.0, 1.0, 1e-9, 1e6])))
     g = lambda lo, hi, den: draw(st.integers(lo, hi)) / float(den)  # noqa: E731
     if sim == "beam":
         case["member"] = draw(gb.member_specs())
@@ -257,6 +258,9 @@ def build(case, inject=True, max_nodes=450) -> Ctx:
             u = arbitrary(rng, coord, ncomp)
         v = arbitrary(rng, coord, ncomp, 2.0)
         a = arbitrary(rng, coord, ncomp, 3.0)
+        umag = float(case.get("umag", 1.0))  # magnitude of the state (length unit of the displacements); linear simulations only
+        if umag != 1.0 and sim not in ("hyperelastic", "inelastic"):
+            u, v, a = umag * u, umag * v, umag * a
         simu._Set_solutions(pt, u.ravel().copy(), v.ravel().copy(), a.ravel().copy())
         if sim == "phasefield":
             d_inj = rng.uniform(0.05, 0.9, Nn)
